@@ -373,13 +373,39 @@ def spec_case(case) -> dict:
     pids = [o["id"] for o in case["objs"] if o["cls"] == "P"]
     c = case["cond"]
     used = set(cond_vars(c) if c is not None else []) | set(v for v in (opnd_var(s) for s in case["sels"]) if v)
-    for name, e in (case.get("flat") or {}).items():
+    def under_exists(n, name, member):
+        """put the membership conjunct inside the exists that quantifies the flattened collection [name]"""
+        k = n[0]
+        if k == "exists" and n[1] == name:
+            return ["exists", name, ["and", member, n[2]]], True
+        if k in ("and", "or"):
+            l, fl = under_exists(n[1], name, member)
+            if fl:
+                return [k, l, n[2]], True
+            r, fr = under_exists(n[2], name, member)
+            return [k, n[1], r], fr
+        if k == "not":
+            m, f = under_exists(n[1], name, member)
+            return ["not", m], f
+        if k in ("exists", "forall"):
+            m, f = under_exists(n[2], name, member)
+            return [k, n[1], m], f
+        return n, False
+
+    for name, e in reversed(list((case.get("flat") or {}).items())):
         if name not in used:
             continue        # (a shrunk case) the flattened collection no longer occurs in the query
-        sc["vars"][name] = "P"
-        sc["doms"][name] = list(pids)
+        ints = e[0] == "attr" and e[2] == "items"
+        sc["vars"][name] = "int" if ints else "P"
+        sc["doms"][name] = [0, 1, 2] if ints else list(pids)
         member = ["contains", e, ["var", name]]
-        c = member if c is None else ["and", member, c]
+        done = False
+        if c is not None:
+            c2, done = under_exists(c, name, member)
+            if done:
+                c = c2
+        if not done:
+            c = member if c is None else ["and", member, c]
     # z = an(entity(z0, c_z)): a variable over z0's domain with the extra conjunct c_z
     for name, sub in (case.get("sub") or {}).items():
         if name not in used:
@@ -602,6 +628,18 @@ def gen_flat_case(rng: Rng) -> dict:
         c = ["and", c, ["cmp", rng.choice(list(OPS)), ["attr", ["var", "z"], rng.choice(["a", "b"])], iop()]]
     case["cond"] = c
     case["flat"] = {"z": src}
+    if "y" not in case["vars"] and rng.chance(0.45):
+        # a flatten reached through a flatten, quantified: exists(y, ...) with y = flatten(z.items), z = flatten(x.kids);
+        # several elements of ONE collection have a witness (seeded C01-F: the elements of a collection share one id)
+        case["flat"]["y"] = ["attr", ["var", "z"], "items"]
+        for o in objs:
+            if not o["items"] or rng.chance(0.5):
+                o["items"] = [rng.randint(0, 2) for _ in range(rng.randint(1, 3))]
+        body = ["cmp", rng.choice(list(OPS)), ["var", "y"], ["lit", rng.randint(0, 2)] if rng.chance(0.6) else ["attr", ["var", rng.choice(["x", "z"])], "a"]]
+        q = ["exists", "y", body]
+        case["cond"] = q if (c is None or rng.chance(0.5)) else ["and", c, q]
+        case["sels"] = [["var", "z"]] if rng.chance(0.6) else [["var", "x"], ["var", "z"]]
+        return case
     sel_names = rng.sample(names, rng.randint(1, min(2, len(names))))
     if "z" not in sel_names and (c is None or "z" not in cond_vars(c)):
         sel_names.append("z")          # the flattened collection must occur in the query
